@@ -209,6 +209,16 @@ theorem Seg.frame (o : Opts) (hmfd : o.maxFrameDepth ≠ 0) {path : Path} {put :
   simp only [bind_eq, pure_eq, P.bind, P.pure, hn3, hty3, Bool.false_eq_true, if_false, getCif, setCif, hvf.upd]
   rw [← hX]
 
+/-- a well-formed run of ITEMS (scalar items and loops) is a segment without report -/
+theorem Seg.items (o : Opts) {path : Path} {put : Container → Cif} {code : Str} (hv : View o path put code)
+    (isBlock : Bool) (its : List Item) (seen : List Str) (fs : List Container) (ls : List Loop)
+    (hwf : wfItems o its seen = true) (hseen : ∀ k ∈ normNames o ls, k ∈ seen) :
+    Seg o path put code isBlock (itemsToks its) fs ls fs (denoteItems o.dia o.normKey its ls)
+      [] (itemsToks its).length its.length (szItems its) termFollow := by
+  intro rest s fuel w hw hf hfo hF
+  obtain ⟨s', h1, h2, h3⟩ := items_structure_at o hv its seen rest s fuel acceptAll w fs ls isBlock hw hwf hseen hf (fun _ => hfo) hF
+  exact ⟨s', [], by simpa using h1, trivial, h2, h3⟩
+
 theorem termFollow_frameTerm (rest : List TokSpec) : termFollow ((.frameTerm, []) :: rest) := ⟨_, _, _, rfl, rfl⟩
 
 theorem termFollow_frameHead (fc : Str) (rest : List TokSpec) : termFollow ((.frameHead, fc) :: rest) := ⟨_, _, _, rfl, rfl⟩
